@@ -55,29 +55,29 @@ Proof.
 Qed.
 
 (* the table: fields added, close_on_finish, chunked_response *)
-Definition conn_table (v11 : bool) (conn : str) (has_cl hb : bool) : list (str * str) * bool * bool :=
+Definition conn_table (v11 : bool) (conn : str) (fc has_cl hb : bool) : list (str * str) * bool * bool :=
   if v11 then
-    let close1 := beqb conn (lit "close") in
+    let close1 := beqb conn (lit "close") || fc in
     if has_cl then ((if close1 then [f_close] else []), close1, false)
     else ((if close1 then [f_close] else []) ++ (if hb then [f_chunked] else [])
           ++ (if close1 then [] else [f_close]), true, hb)
-  else if beqb conn (lit "keep-alive") && has_cl then ([f_keep], false, false)
+  else if beqb conn (lit "keep-alive") && negb fc && has_cl then ([f_keep], false, false)
        else ([f_close], true, false).
 
 Lemma noconn_app l1 l2 : NoConn l1 -> NoConn l2 -> NoConn (l1 ++ l2).
 Proof. intros. apply Forall_app; auto. Qed.
 
-Theorem bh_conn_table conn clh t :
+Theorem bh_conn_table conn fc clh t :
   t_cof t = false -> t_wrote_header t = false -> t_chunked t = false -> NoConn (t_rh t) ->
-  let t' := bh_conn cap lower conn clh t in
-  let '(add, cof, chk) := conn_table (t_v11 t) conn (truthy clh) (has_body t) in
+  let t' := bh_conn cap lower conn fc clh t in
+  let '(add, cof, chk) := conn_table (t_v11 t) conn fc (truthy clh) (has_body t) in
   t_rh t' = t_rh t ++ add /\ t_cof t' = cof /\ t_chunked t' = chk
   /\ t_status t' = t_status t /\ t_clen t' = t_clen t /\ t_cbw t' = t_cbw t
   /\ t_wrote_header t' = false /\ t_v11 t' = t_v11 t /\ t_complete t' = t_complete t.
 Proof.
   intros C W K N. cbn zeta. unfold bh_conn, conn_table.
   destruct (t_v11 t) eqn:V; cbn [negb].
-  - destruct (beqb conn (lit "close")) eqn:Ec.
+  - destruct (beqb conn (lit "close") || fc) eqn:Ec.
     + rewrite scof_noconn by auto.
       destruct (truthy clh); cbn [negb].
       * cbn. rewrite app_nil_r || idtac. repeat split; auto.
@@ -94,7 +94,7 @@ Proof.
            ++ cbn [t_rh set_chunked set_rh]. apply noconn_app; auto. constructor; [|constructor].
               cbn [fst f_chunked]. exact Hcap_te.
         -- rewrite C. cbn [negb]. rewrite scof_noconn by auto. cbn. repeat split; auto.
-  - destruct (beqb conn (lit "keep-alive")) eqn:Ek; cbn [andb].
+  - destruct (beqb conn (lit "keep-alive") && negb fc) eqn:Ek; cbn [andb].
     + destruct (truthy clh); cbn [negb].
       * cbn. repeat split; auto.
       * rewrite scof_noconn by auto. cbn. repeat split; auto.
@@ -102,16 +102,16 @@ Proof.
 Qed.
 
 (* what the table says about announcing *)
-Lemma table_announce v11 conn has_cl hb :
-  let '(add, cof, chk) := conn_table v11 conn has_cl hb in
+Lemma table_announce v11 conn fc has_cl hb :
+  let '(add, cof, chk) := conn_table v11 conn fc has_cl hb in
   (cof = true -> In f_close add /\ ~ In f_keep add)
   /\ (cof = false -> ~ In f_close add /\ (if v11 then add = [] else add = [f_keep]))
   /\ (chk = true -> v11 = true /\ has_cl = false /\ hb = true /\ In f_chunked add /\ cof = true)
-  /\ (cof = true <-> (if v11 then beqb conn (lit "close") || negb has_cl
-                     else negb (beqb conn (lit "keep-alive") && has_cl)) = true).
+  /\ (cof = true <-> (if v11 then beqb conn (lit "close") || fc || negb has_cl
+                     else negb (beqb conn (lit "keep-alive") && negb fc && has_cl)) = true).
 Proof.
   unfold conn_table, f_close, f_keep, f_chunked.
-  destruct v11, (beqb conn (lit "close")), (beqb conn (lit "keep-alive")), has_cl, hb; cbn;
+  destruct v11, (beqb conn (lit "close")), (beqb conn (lit "keep-alive")), fc, has_cl, hb; cbn;
     repeat split; try discriminate; try reflexivity; intros;
     try (solve [intuition (try discriminate; try congruence)]).
 Qed.
